@@ -339,3 +339,244 @@ def asa_raises(ctx, st, exc):
 
 UNITS.append(Unit("C12", "jsonargparse._signatures:SignatureArguments._add_signature_arguments", asa_setup, asa_post, asa_raises, max_paths=20000, expect_cover=("return", "raise:ValueError"),
                   trusted=["get_signature_parameters reports the parameters (C13 units and harness)", "_create_group_if_requested / _add_signature_parameter by contract (the latter: its own unit)"]))
+
+
+# ------------------------------------------------------------------------------------------------ auto_cli (build, parse, instantiate, dispatch)
+def ac_setup12(ctx):
+    from contracts.ns_units import Branch, build, common as ns_common, c_setitem, ns_rec
+    from pyvc.engine import Fn
+    scen = ["one-function", "list-of-one", "list-of-two", "dict-nested", "dict-with-class", "dict-with-help-key", "empty-list", "not-callable", "not-callable-in-list", "set_defaults"][ctx.choose(10, "components")]
+    with_defaults = scen == "set_defaults" or (scen == "list-of-two" and ctx.choose(2, "set_defaults-given") == 1)
+    flags_given = ctx.choose(2, "as_positional/fail_untyped-given") == 1
+    ctx.classes.add("Namespace", ["object"])
+    f1, f2, K, bad = Rec("function f1", attrs={"__name__": "f1"}), Rec("function f2", attrs={"__name__": "f2"}), Rec("class K", attrs={"__name__": "K"}), z3.Int("not-a-callable")
+    comps = {"one-function": f1, "list-of-one": [f1], "list-of-two": [f1, f2], "dict-nested": {"grp": {"f2": f2, "f1": f1}, "f1": f1}, "dict-with-class": {"K": K, "f1": f1},
+             "dict-with-help-key": {"grp": {"_help": "help of the group", "f2": f2}}, "empty-list": [], "not-callable": bad, "not-callable-in-list": [f1, bad], "set_defaults": f1}[scen]
+    sec = Rec("Namespace section of the selected component")
+    init_tree = {"one-function": Branch(x=z3.Int("x")), "list-of-one": Branch(x=z3.Int("x")), "set_defaults": Branch(x=z3.Int("x")),
+                 "list-of-two": Branch(subcommand="f2", f2=Branch(y=z3.Int("y"))),
+                 "dict-nested": Branch(subcommand="grp", grp=Branch(subcommand="f1", f1=Branch(z=z3.Int("z")))),
+                 "dict-with-class": Branch(subcommand="K", K=Branch(a=z3.Int("a"), subcommand="run", run=Branch(b=z3.Int("b")))),
+                 "dict-with-help-key": Branch(subcommand="grp", grp=Branch(subcommand="f2", f2=Branch(y=z3.Int("y"))))}.get(scen, Branch())
+    init = build(init_tree)
+    cfg = Rec("Namespace parsed")
+    argv = ["--x=1"]
+    result_token = Rec("what the component returned")
+    defaults = {"x": 5} if with_defaults else None
+
+    parser = Rec("ArgumentParser", methods={
+        "add_argument": lambda c, s_, a, k: c.event("add_argument", a, dict(k)),
+        "set_defaults": lambda c, s_, a, k: c.event("set_defaults", a[0]),
+        "parse_args": lambda c, s_, a, k: (c.event("parse_args", a[0] if a else k.get("args")), cfg)[1],
+        "instantiate_classes": lambda c, s_, a, k: (c.event("instantiate_classes", a[0]), init)[1]})
+
+    def dict_to_namespace(c, a, k):
+        def conv(d):
+            return Branch((kk, conv(vv) if isinstance(vv, dict) else vv) for kk, vv in d.items())
+        return build(conv(a[0]))
+
+    calls = {
+        "inspect.isclass": lambda c, a, k: a[0] is K, "callable": lambda c, a, k: a[0] in (f1, f2, K) if isinstance(a[0], Rec) else False,
+        "dict_to_namespace": dict_to_namespace,
+        "_add_component_to_parser": lambda c, a, k: c.event("add_component", a[0], a[1], a[2], a[3], a[4]),
+        "_add_subcommands": lambda c, a, k: c.event("add_subcommands", a[0], a[1], a[2], a[3], a[4]),
+        "_run_component": lambda c, a, k: (c.event("run", a[0], a[1]), result_token)[1],
+    }
+    consts, inline = ns_common(ctx)
+    consts["ActionConfigFile"] = Rec("ActionConfigFile")
+    flags = {"as_positional": z3.Bool("as_positional"), "fail_untyped": z3.Bool("fail_untyped")} if flags_given else {"as_positional": True, "fail_untyped": True}  # the documented defaults
+    env = {"components": comps, "args": argv, "config_help": "cfg help", "set_defaults": defaults, "parser_class": Fn(lambda c, a, k: (c.event("parser_class", dict(k)), parser)[1], "parser_class"), "kwargs": {"prog": "app"}}
+    if flags_given:
+        env.update(flags)
+    return Setup(env=env, calls=calls, consts=consts, inline=inline,
+                 data=dict(scen=scen, f1=f1, f2=f2, K=K, comps=comps, init=init, cfg=cfg, argv=argv, result_token=result_token, parser=parser, flags=flags, defaults=defaults))
+
+
+def ac_post12(ctx, st, result):
+    from contracts.ns_units import rec_at
+    d = st.data
+    tag = f"[{d['scen']}]"
+    ev = ctx.events
+    legal = d["scen"] not in ("empty-list", "not-callable", "not-callable-in-list")
+    ctx.oblige("post", "accepted=>the-components-are-functions-or-classes(at least one)" + tag, legal)
+    if not legal:
+        return
+    single = d["scen"] in ("one-function", "list-of-one", "set_defaults")
+    sel, section = {
+        "one-function": (d["f1"], d["init"]), "list-of-one": (d["f1"], d["init"]), "set_defaults": (d["f1"], d["init"]),
+        "list-of-two": (d["f2"], rec_at(d["init"], ["f2"])), "dict-nested": (d["f1"], rec_at(d["init"], ["grp", "f1"])),
+        "dict-with-class": (d["K"], rec_at(d["init"], ["K"])), "dict-with-help-key": (d["f2"], rec_at(d["init"], ["grp", "f2"]))}[d["scen"]]
+    runs = [e for e in ev if e[0] == "run"]
+    ctx.oblige("post", "exactly-one-component-is-run:the-one-the-parsed-subcommand-path-selects(a class's method is chosen inside _run_component),with-its-own-section-of-the-instantiated-configuration" + tag,
+               len(runs) == 1 and runs[0][1] is sel and runs[0][2] is section)
+    ctx.oblige("post", "returns-what-the-component-returned" + tag, result is d["result_token"])
+    order = [e[0] for e in ev if e[0] in ("parser_class", "add_argument", "add_component", "add_subcommands", "set_defaults", "parse_args", "instantiate_classes", "run")]
+    want = ["parser_class", "add_argument", "add_component" if single else "add_subcommands"] + (["set_defaults"] if d["defaults"] is not None else []) + ["parse_args", "instantiate_classes", "run"]
+    ctx.oblige("post", "build(parser, --config, arguments of the component(s), defaults),parse-the-given-argv,instantiate,dispatch:in-this-order,each-once" + tag, order == want)
+    pa = [e for e in ev if e[0] == "parse_args"][0]
+    ic = [e for e in ev if e[0] == "instantiate_classes"][0]
+    ctx.oblige("post", "the-argv-given-is-what-is-parsed-and-the-parse-result-is-what-is-instantiated" + tag, pa[1] is d["argv"] and ic[1] is d["cfg"])
+    add = [e for e in ev if e[0] in ("add_component", "add_subcommands")][0]
+    if single:
+        ctx.oblige("post", "the-component's-parameters-are-declared-with-the-caller's-settings" + tag, add[1] is d["f1"] and add[2] is d["parser"] and add[3] is d["flags"]["as_positional"] and add[4] is d["flags"]["fail_untyped"] and add[5] == "cfg help")
+    else:
+        names = list(add[1]) if isinstance(add[1], dict) else None
+        want_names = ["f1", "f2"] if d["scen"] == "list-of-two" else list(d["comps"])
+        ctx.oblige("post", "several-components-become-subcommands-named-after-them,declared-with-the-caller's-settings" + tag, names == want_names and add[2] is d["parser"] and add[4] is d["flags"]["as_positional"] and add[5] is d["flags"]["fail_untyped"])
+    pc = [e for e in ev if e[0] == "parser_class"][0]
+    ctx.oblige("post", "the-parser-gets-the-caller's-keywords(and no meta keys in results)" + tag, pc[1] == {"default_meta": False, "prog": "app"})
+
+
+def ac_raises12(ctx, st, exc):
+    d = st.data
+    ctx.oblige("raises", f"ValueError-exactly-for-empty-or-non-callable-components,before-anything-is-parsed[{d['scen']}](got {exc.cls}@{exc.origin})",
+               exc.cls == "ValueError" and d["scen"] in ("empty-list", "not-callable", "not-callable-in-list") and not [e for e in ctx.events if e[0] in ("parse_args", "run")])
+
+
+UNITS.append(Unit("C12", "jsonargparse._cli:auto_cli", ac_setup12, ac_post12, ac_raises12, expect_cover=("return", "raise:ValueError"), max_paths=5000,
+                  trusted=["_add_component_to_parser / _add_subcommands / _run_component by contract (their own units)", "parser.parse_args / instantiate_classes by contract (C04 / C14 / C16 units)",
+                           "dict_to_namespace nests the components by name (C11)", "components=None (taken from the caller's module) is outside these scenarios"]))
+
+
+# ------------------------------------------------------------------------------------------------ _add_component_to_parser / _add_subcommands
+def acp_setup(ctx):
+    kind = ["function", "class-without-public-methods", "class-with-methods"][ctx.choose(3, "component")]
+    has_descr = ctx.choose(2, "parser-already-has-a-description") == 1
+    ctx.classes.add("property", ["object"])
+    m_plain, m_cfg, m_noargs, prop = Rec("method run"), Rec("method fit(config)"), Rec("method ping()"), Rec("property", attrs={})
+    members = {"function": [], "class-without-public-methods": [("__init__", Rec("init")), ("_private", Rec("m")), ("attr", 5)],
+               "class-with-methods": [("__init__", Rec("init")), ("_hidden", Rec("m")), ("fit", m_cfg), ("info", prop), ("limit", 3), ("ping", m_noargs), ("run", m_plain)]}[kind]
+    comp = Rec("component", attrs={n: v for n, v in members})
+    flags = {"as_positional": z3.Bool("as_positional"), "fail_untyped": z3.Bool("fail_untyped")}
+    subparsers = []
+    subcommands = Rec("subcommands action", methods={"add_subcommand": lambda c, s_, a, k: c.event("add_subcommand", a[0], a[1], dict(k))})
+
+    def mk_parser(description):
+        r = Rec("ArgumentParser", attrs={"description": description, "logger": Rec("logger")})
+        r.methods.update({
+            "add_function_arguments": lambda c, s_, a, k: (c.event("add_function_arguments", s_, a[0], dict(k)), ["x", "y"])[1],
+            "add_class_arguments": lambda c, s_, a, k: (c.event("add_class_arguments", s_, a[0], dict(k)), ["a"])[1],
+            "add_method_arguments": lambda c, s_, a, k: (c.event("add_method_arguments", s_, a[0], a[1], dict(k)), [] if a[1] == "ping" else ["p"])[1],
+            "add_subcommands": lambda c, s_, a, k: (c.event("add_subcommands", s_, dict(k)), subcommands)[1],
+            "add_argument": lambda c, s_, a, k: c.event("add_argument", s_, a, dict(k))})
+        return r
+
+    parser = mk_parser("given description" if has_descr else None)
+
+    def new_parser(c, a, k):
+        sp = mk_parser(k.get("description"))
+        subparsers.append(sp)
+        return sp
+
+    calls = {"inspect.isclass": lambda c, a, k: kind != "function" and a[0] is comp, "inspect.getmembers": lambda c, a, k: list(members),
+             "callable": lambda c, a, k: isinstance(a[0], Rec) and a[0].cls != "property", "get_help_str": lambda c, a, k: ("help of", a[0]),
+             "has_parameter": lambda c, a, k: a[0] is m_cfg and a[1] == "config", "type": lambda c, a, k: __import__("pyvc.engine", fromlist=["Fn"]).Fn(new_parser, "type(parser)"),
+             "remove_actions": lambda c, a, k: c.event("remove_actions", a[0], a[1])}
+    from pyvc.engine import ClassRef
+    consts = {"ActionConfigFile": Rec("ActionConfigFile"), "_ActionPrintConfig": Rec("_ActionPrintConfig"), "property": ClassRef("property")}
+    env = {"component": comp, "parser": parser, "config_help": "cfg help"}
+    env.update(flags)
+    return Setup(env=env, calls=calls, consts=consts, data=dict(kind=kind, has_descr=has_descr, comp=comp, parser=parser, flags=flags, subparsers=subparsers, subcommands=subcommands, m_cfg=m_cfg, prop=prop))
+
+
+def acp_post(ctx, st, result):
+    d = st.data
+    tag = f"[{d['kind']}{',described' if d['has_descr'] else ''}]"
+    ev = ctx.events
+    kw = {"as_positional": d["flags"]["as_positional"], "fail_untyped": d["flags"]["fail_untyped"], "sub_configs": True}
+
+    def same_kw(got, extra):
+        want = dict(kw, **extra)
+        return set(got) == set(want) and all(got[k] is want[k] for k in want)
+
+    if d["kind"] == "function":
+        e = [x for x in ev if x[0] == "add_function_arguments"]
+        ctx.oblige("post", "a-function's-parameters-are-declared-directly-on-the-parser(no group),with-the-caller's-settings" + tag, len(e) == 1 and e[0][1] is d["parser"] and e[0][2] is d["comp"] and same_kw(e[0][3], {"as_group": False}) and result == ["x", "y"])
+    elif d["kind"] == "class-without-public-methods":
+        e = [x for x in ev if x[0] == "add_class_arguments"]
+        ctx.oblige("post", "a-class-without-public-methods:only-its-constructor-parameters(no subcommands)" + tag, len(e) == 1 and e[0][2] is d["comp"] and same_kw(e[0][3], {"as_group": False}) and result == ["a"] and not [x for x in ev if x[0] == "add_subcommands"])
+    else:
+        e = [x for x in ev if x[0] == "add_class_arguments"]
+        ctx.oblige("post", "a-class-with-methods:the-constructor-parameters-form-the-class's-own-group" + tag, len(e) == 1 and e[0][1] is d["parser"] and e[0][2] is d["comp"] and same_kw(e[0][3], {}))
+        sc = [x for x in ev if x[0] == "add_subcommands"]
+        ctx.oblige("post", "choosing-a-method-is-required" + tag, len(sc) == 1 and sc[0][1] is d["parser"] and sc[0][2] == {"required": True})
+        added = [x for x in ev if x[0] == "add_subcommand"]
+        ctx.oblige("post", "one-subcommand-per-public-method-or-property(private names and plain attributes are not offered),each-with-its-own-parser" + tag,
+                   [x[1] for x in added] == ["fit", "info", "ping", "run"] and len(d["subparsers"]) == 4 and all(x[2] is sp for x, sp in zip(added, d["subparsers"])))
+        ma = [x for x in ev if x[0] == "add_method_arguments"]
+        ctx.oblige("post", "each-method's-own-parameters-are-declared-on-its-own-parser(a property has none)" + tag,
+                   [x[3] for x in ma] == ["fit", "ping", "run"] and all(x[2] is d["comp"] and same_kw(x[4], {"as_group": False}) for x in ma)
+                   and all(x[1] is d["subparsers"][i] for x, i in zip(ma, (0, 2, 3))))
+        cfgs = [x for x in ev if x[0] == "add_argument"]
+        ctx.oblige("post", "a-method-gets-a---config-option-unless-it-has-a-parameter-called-config-itself" + tag,
+                   [x[1] for x in cfgs] == [d["subparsers"][2], d["subparsers"][3]] and all(x[2] == ("--config",) for x in cfgs))
+        rm = [x for x in ev if x[0] == "remove_actions"]
+        ctx.oblige("post", "a-method-without-parameters-keeps-no-config/print_config-options" + tag, len(rm) == 1 and rm[0][1] is d["subparsers"][2])
+        ctx.oblige("post", "returns-the-constructor's-keys-and-each-method's-keys-prefixed-by-the-method-name" + tag, result == ["a", "fit.p", "run.p"])
+    if d["kind"] != "class-with-methods":
+        ctx.oblige("post", "the-parser's-description-is-the-component's-help-unless-one-was-given" + tag,
+                   d["parser"].attrs["description"] == ("given description" if d["has_descr"] else ("help of", d["comp"])))
+
+
+def acp_raises(ctx, st, exc):
+    ctx.oblige("raises", f"no-own-exception[{st.data['kind']}](got {exc.cls}@{exc.origin})", False)
+
+
+UNITS.append(Unit("C12", "jsonargparse._cli:_add_component_to_parser", acp_setup, acp_post, acp_raises, max_paths=5000,
+                  trusted=["add_function_arguments / add_class_arguments / add_method_arguments by contract (_add_signature_arguments: its own unit)", "inspect.getmembers lists (name, member) pairs sorted by name",
+                           "add_subcommands / add_subcommand by contract (C17, C03 units)"]))
+
+
+def asc12_setup(ctx):
+    from pyvc.engine import Fn
+    f1, f2, K = Rec("function f1"), Rec("function f2"), Rec("class K")
+    comps = {"_help": "help of this level", "f1": f1, "grp": {"_help": "help of grp", "f2": f2}, "K": K}
+    subcommands = Rec("subcommands action", methods={"add_subcommand": lambda c, s_, a, k: c.event("add_subcommand", a[0], a[1], dict(k))})
+    subparsers = []
+
+    def mk_parser(description):
+        r = Rec("ArgumentParser", attrs={"description": description, "logger": Rec("logger")})
+        r.methods.update({"add_subcommands": lambda c, s_, a, k: (c.event("add_subcommands", s_, dict(k)), subcommands)[1], "add_argument": lambda c, s_, a, k: c.event("add_argument", s_, a, dict(k))})
+        return r
+
+    parser = mk_parser(None)
+
+    def new_parser(c, a, k):
+        sp = mk_parser(k.get("description"))
+        subparsers.append(sp)
+        return sp
+
+    flags = {"as_positional": z3.Bool("as_positional"), "fail_untyped": z3.Bool("fail_untyped")}
+    calls = {"get_help_str": lambda c, a, k: a[0].get("_help") if isinstance(a[0], dict) else ("help of", a[0]), "type": lambda c, a, k: Fn(new_parser, "type(parser)"),
+             "_add_subcommands": lambda c, a, k: c.event("recurse", a[0], a[1], a[2], a[3], a[4]),
+             "_add_component_to_parser": lambda c, a, k: (c.event("add_component", a[0], a[1], a[2], a[3], a[4]), [] if a[0] is f1 else ["x"])[1],
+             "remove_actions": lambda c, a, k: c.event("remove_actions", a[0])}
+    env = {"components": comps, "parser": parser, "config_help": "cfg help"}
+    env.update(flags)
+    return Setup(env=env, calls=calls, consts={"ActionConfigFile": Rec("ActionConfigFile"), "_ActionPrintConfig": Rec("_ActionPrintConfig")},
+                 data=dict(comps=comps, f1=f1, f2=f2, K=K, parser=parser, subparsers=subparsers, flags=flags))
+
+
+def asc12_post(ctx, st, result):
+    d = st.data
+    ev = ctx.events
+    sc = [e for e in ev if e[0] == "add_subcommands"]
+    ctx.oblige("post", "choosing-one-of-the-components-is-required", len(sc) == 1 and sc[0][1] is d["parser"] and sc[0][2] == {"required": True})
+    added = [e for e in ev if e[0] == "add_subcommand"]
+    ctx.oblige("post", "one-subcommand-per-component,named-by-its-key(the _help entry is not a component),each-with-its-own-parser-and---config", [e[1] for e in added] == ["f1", "grp", "K"] and len(d["subparsers"]) == 3
+               and all(e[2] is sp for e, sp in zip(added, d["subparsers"])) and [e[1] for e in ev if e[0] == "add_argument"] == d["subparsers"])
+    rec = [e for e in ev if e[0] == "recurse"]
+    ctx.oblige("post", "a-nested-dict-becomes-nested-subcommands-on-its-own-parser,with-the-same-settings", len(rec) == 1 and rec[0][1] is d["comps"]["grp"] and rec[0][2] is d["subparsers"][1]
+               and rec[0][3] == "cfg help" and rec[0][4] is d["flags"]["as_positional"] and rec[0][5] is d["flags"]["fail_untyped"])
+    ac = [e for e in ev if e[0] == "add_component"]
+    ctx.oblige("post", "a-function-or-class-is-declared-on-its-own-parser,with-the-same-settings", [e[1] for e in ac] == [d["f1"], d["K"]] and ac[0][2] is d["subparsers"][0] and ac[1][2] is d["subparsers"][2]
+               and all(e[3] is d["flags"]["as_positional"] and e[4] is d["flags"]["fail_untyped"] and e[5] == "cfg help" for e in ac))
+    ctx.oblige("post", "a-component-without-parameters-keeps-no-config-options", [e[1] for e in ev if e[0] == "remove_actions"] == [d["subparsers"][0]])
+
+
+def asc12_raises(ctx, st, exc):
+    ctx.oblige("raises", f"no-own-exception(got {exc.cls}@{exc.origin})", False)
+
+
+UNITS.append(Unit("C12", "jsonargparse._cli:_add_subcommands", asc12_setup, asc12_post, asc12_raises, max_paths=100,
+                  trusted=["_add_component_to_parser and the recursive call by contract", "add_subcommands / add_subcommand by contract"]))
